@@ -32,7 +32,12 @@ func main() {
 	repo := flag.String("repo", "/repo", "repository root")
 	out := flag.String("out", "", "output directory for rewritten files")
 	hooks := flag.String("hooks", "", "directory of hook files: <dir>/<rel path with __ for />.go is added to the package at that path")
+	as := flag.String("as", "", "build root the overlay is keyed on when sources are read from another tree (-repo): every non-test .go file of -repo is mapped onto <as>/<rel>, files missing in -repo are mapped to nothing")
 	flag.Parse()
+	keyRoot := *repo
+	if *as != "" && *as != *repo {
+		keyRoot = *as
+	}
 	if *out == "" {
 		fmt.Fprintln(os.Stderr, "vinstr: -out required")
 		os.Exit(2)
@@ -58,6 +63,9 @@ func main() {
 			return fmt.Errorf("%s: %w", p, err)
 		}
 		if !changed {
+			if keyRoot != *repo {
+				overlay[filepath.Join(keyRoot, rel)] = p
+			}
 			return nil
 		}
 		dst := filepath.Join(*out, "src", rel)
@@ -67,10 +75,35 @@ func main() {
 		if err := os.WriteFile(dst, newSrc, 0o644); err != nil {
 			return err
 		}
-		overlay[p] = dst
+		overlay[filepath.Join(keyRoot, rel)] = dst
 		rep.Files = append(rep.Files, rel)
 		return nil
 	})
+	if err == nil && keyRoot != *repo {
+		// files that exist under the build root but not in the source tree are removed
+		err = filepath.Walk(keyRoot, func(p string, info os.FileInfo, err error) error {
+			if err != nil {
+				return err
+			}
+			rel, _ := filepath.Rel(keyRoot, p)
+			if info.IsDir() {
+				b := info.Name()
+				if rel != "." && (strings.HasPrefix(b, ".") || b == "examples" || b == "docs" || b == "testdata" || b == "vendor") {
+					return filepath.SkipDir
+				}
+				return nil
+			}
+			if !strings.HasSuffix(p, ".go") || strings.HasSuffix(p, "_test.go") {
+				return nil
+			}
+			if _, ok := overlay[p]; !ok {
+				if _, e := os.Stat(filepath.Join(*repo, rel)); e != nil {
+					overlay[p] = ""
+				}
+			}
+			return nil
+		})
+	}
 	if err != nil {
 		fmt.Fprintln(os.Stderr, "vinstr:", err)
 		os.Exit(2)
@@ -83,7 +116,7 @@ func main() {
 			}
 			// name: dir__dir__file.go  -> <repo>/dir/dir/file.go
 			rel := strings.ReplaceAll(e.Name(), "__", "/")
-			target := filepath.Join(*repo, rel)
+			target := filepath.Join(keyRoot, rel)
 			abs, _ := filepath.Abs(filepath.Join(*hooks, e.Name()))
 			overlay[target] = abs
 			rep.Hooks = append(rep.Hooks, rel)
